@@ -13,7 +13,7 @@ pub fn run(stream: &str, seed: u64, cases: u64, replay: Option<&str>, o: &mut Ou
         "swapmath" => swapmath::run(seed, cases, replay, o),
         "mintmath" => mintmath::run(seed, cases, replay, o),
         "farmmath" => farmmath::run(seed, cases, replay, o),
-        "pm_hist" | "fm_hist" => hist_gen::run(stream, seed, cases, replay, o),
+        "pm_hist" | "fm_hist" | "faults" => hist_gen::run(stream, seed, cases, replay, o),
         _ => return false,
     }
     true
